@@ -199,22 +199,31 @@ class Transaction:
             sig.add((f.get("name"), type_key, bool(f.get("required", False))))
         return sig
 
-    def _validate_schema_against_table(self, schema: Schema) -> None:
+    def _validate_schema_against_table(self, schema: Schema) -> Schema:
         """Reject appends whose schema diverges from the table's persisted schema.
 
         A divergent append would write parquet files whose schema differs from
         the rest of the table, making every subsequent full scan fail on
         concat - effectively bricking reads for the whole table.
+
+        Returns the schema object to WRITE with: the table's own persisted
+        schema. The signature deliberately ignores field order and field ids,
+        so a matching argument may still list the columns in another order or
+        under other ids; writing with it would lay the parquet file out in the
+        caller's column order (concat_tables then fails on every full scan) and
+        key the file's column bounds by the caller's ids (pruning then consults
+        another column's bounds). The argument is only checked, never written with.
         """
         table_schema = self._resolve_table_schema()
         if table_schema is None:
-            return  # No persisted schema (legacy table): nothing to enforce
+            return schema  # No persisted schema (legacy table): nothing to enforce
         if self._schema_signature(schema) != self._schema_signature(table_schema):
             raise ValueError(
                 "Provided schema does not match the table's persisted schema. "
                 "Appending with a divergent schema would make table scans fail. "
                 f"Table fields: {table_schema.fields}; provided fields: {schema.fields}"
             )
+        return table_schema
 
     def append_data(
         self,
@@ -241,7 +250,7 @@ class Transaction:
                     "all record fields."
                 )
         else:
-            self._validate_schema_against_table(schema)
+            schema = self._validate_schema_against_table(schema)
 
         # Create a data file with the records using UUID for uniqueness
         file_id = uuid.uuid4().hex[:16]  # Use 16 chars of UUID hex
